@@ -29,7 +29,7 @@ use crate::runner::run_cases;
 pub const SPEC: PropSpec = PropSpec {
     id: "C20",
     level: "exploration",
-    rule: "E5 schedules: 2-4 subscriber API tasks (subscribe, yields, maybe unsubscribe), their receiver tasks (recv n times, maybe drop the receiver), 1-2 publishers with unique (publisher, counter) payloads and a len() caller, all built from the real SubscriptionHub futures and polled one at a time by a seeded executor (uniform random order, or PCT-style priorities with 1-3 change points, spurious polls included); channel capacities 1/2/8/128; at a random point all receiver tasks are frozen (never polled again) and only hub-API tasks run in rounds. Offline checker over the call/return log: N1 every publish completes within 2 x (#hub-API tasks) + 2 rounds with all receivers frozen, and no run stalls with a publisher pending; N2 every received line's method is <topic>.update of the subscriber's topic; N3 params.subscription_id is the id returned to that subscriber, ids pairwise distinct; N4 per subscriber and publisher the counters strictly increase, no line twice; N5 nothing published (call event) after an unsubscribe returned is received by that subscription; N6 after final publishes the hub holds exactly the live subscriptions (closed receivers pruned, unsubscribed removed). Real-runtime lanes: the same programs on the 4-worker tokio runtime (N2-N5), a paused-clock lane (publish under a virtual 10 s time-out with full / closed channels), and the production control socket with a subscriber that never reads, one that disconnects abruptly and a well-behaved one that must keep receiving ordered events. Non-trivial = schedule with a Full drop, a Closed prune, or an unsubscribe / subscribe racing a publish; distinct = distinct hashes of the poll sequence (task kind per step).",
+    rule: "E5 schedules: 2-4 subscriber API tasks (subscribe, yields, maybe unsubscribe), their receiver tasks (recv n times, maybe drop the receiver), 1-2 publishers with unique (publisher, counter) payloads and a len() caller, all built from the real SubscriptionHub futures and polled one at a time by a seeded executor (uniform random order, or PCT-style priorities with 1-3 change points, spurious polls included); channel capacities 1/2/8/128; at a random point all receiver tasks are frozen (never polled again) and only hub-API tasks run in rounds. Offline checker over the call/return log: N1 every publish completes within 2 x (#hub-API tasks) + 2 rounds with all receivers frozen, and no run stalls with a publisher pending; N2 every received line's method is <topic>.update of the subscriber's topic; N3 params.subscription_id is the id returned to that subscriber, ids pairwise distinct; N4 per subscriber and publisher the counters strictly increase, no line twice; N5 nothing published (call event) after an unsubscribe returned is received by that subscription, and - physically, on the multi-thread runtime - nothing lands in a subscriber's channel after its unsubscribe() returned and the channel was drained; N6 after final publishes the hub holds exactly the live subscriptions (closed receivers pruned, unsubscribed removed). Real-runtime lanes: the same programs on the 4-worker tokio runtime (N2-N5), a paused-clock lane (publish under a virtual 10 s time-out with full / closed channels), and the production control socket with a subscriber that never reads, one that disconnects abruptly and a well-behaved one that must keep receiving ordered events. Non-trivial = schedule with a Full drop, a Closed prune, or an unsubscribe / subscribe racing a publish; distinct = distinct hashes of the poll sequence (task kind per step).",
     assumptions: &[
         "interleavings are sampled (uniform + PCT-style), not enumerated; on the single-threaded E5 executor every hub call completes within one poll (its only await is the uncontended mutex), so E5 explores interleavings between operations and the frozen-receiver phase, while overlaps INSIDE an operation (unsubscribe / subscribe racing a publish) come from the multi-thread runtime lane",
         "a publisher may wait for another hub-API task that was handed the fair mutex and has not been polled yet; it may never need a receiver task to run",
@@ -45,6 +45,7 @@ pub const SPEC: PropSpec = PropSpec {
         ("race.unsubscribe_during_publish", 100, 4_000),
         ("race.subscribe_during_publish", 100, 4_000),
         ("N5.checked_after_unsubscribe", 2_000, 80_000),
+        ("N5.physical_unsubscribe_rounds", 300, 12_000),
         ("N6.final_len_checked", 20_000, 800_000),
         ("runtime.operations", 20_000, 1_000_000),
         ("paused_clock.publishes", 2_000, 50_000),
@@ -574,6 +575,63 @@ fn runtime_lane(cfg: &RunCfg, rep: &mut Report) {
         let ev = log.ev.lock().unwrap().clone();
         rep.add("runtime.operations", ev.len() as u64);
         check_log(&plan, &ev, None, rep, "tokio multi-thread runtime");
+    }
+    // ---- physical N5: nothing lands in a subscriber's channel after its unsubscribe() has returned --------------------
+    // A publisher hammers one topic that also has several permanently full capacity-1 subscribers (long fan-out
+    // loop, large payload); a victim subscribes, waits a little, unsubscribes, drains what is buffered at that
+    // instant and then watches its channel: any line that appears later was sent after the unsubscribe completed.
+    let rounds = cfg.cases(400, 16_000);
+    let lane_start = Instant::now();
+    for round in 0..rounds {
+        let hub = SubscriptionHub::new();
+        let wait_us = rng.below(400);
+        let fulls = 2 + rng.usize_below(6);
+        let payload = "x".repeat(*rng.pick(&[16usize, 4_000, 60_000]));
+        let late: Option<String> = rt.block_on(async {
+            let mut keep = Vec::new();
+            for _ in 0..fulls {
+                let (tx, rx) = mpsc::channel::<String>(1);
+                hub.subscribe("stats", tx).await;
+                keep.push(rx);
+            }
+            let stop = Arc::new(std::sync::atomic::AtomicBool::new(false));
+            let (h2, st2, pl) = (hub.clone(), stop.clone(), payload.clone());
+            let publisher = tokio::spawn(async move {
+                let mut n = 0u64;
+                while !st2.load(Ordering::Relaxed) {
+                    h2.publish("stats", json!({"n": n, "pad": pl})).await;
+                    n += 1;
+                    if n % 8 == 0 {
+                        tokio::task::yield_now().await;
+                    }
+                }
+                n
+            });
+            let (tx, mut rx) = mpsc::channel::<String>(128);
+            let id = hub.subscribe("stats", tx).await;
+            tokio::time::sleep(Duration::from_micros(wait_us)).await;
+            let removed = hub.unsubscribe(&id).await;
+            // everything buffered at this instant was sent before the unsubscribe completed
+            let mut before = 0;
+            while rx.try_recv().is_ok() {
+                before += 1;
+            }
+            tokio::time::sleep(Duration::from_millis(2)).await;
+            let late = rx.try_recv().ok();
+            stop.store(true, Ordering::Relaxed);
+            let _ = publisher.await;
+            let _ = (removed, before, keep);
+            late.map(|l| l.chars().take(90).collect())
+        });
+        rep.eval();
+        rep.count("N5.physical_unsubscribe_rounds");
+        if let Some(l) = late {
+            rep.violation("C20.N5.delivered-after-unsubscribe", format!("real runtime, round {round}: a line landed in the subscriber's channel after its unsubscribe() had returned and the channel had been drained ({fulls} full capacity-1 co-subscribers, payload {} B): {l}...", payload.len()));
+            break;
+        }
+        if lane_start.elapsed() > Duration::from_secs(120) {
+            break;
+        }
     }
     // paused clock: a publish can only time out if it is truly blocked
     let prt = tokio::runtime::Builder::new_current_thread().enable_all().start_paused(true).build().expect("rt");
